@@ -42,6 +42,35 @@ func c01(p *core.Prog, r *core.Report) {
 	recvPriority(p, r, "C01-R10")
 	noUseAfterPut(p, r, "C01-R10", "/typed")
 	releasedByOwnersOnly(p, r, "C01-R10")
+	// a response's arg1 may carry bytes: the caller-side accessor reads it to
+	// its end before it hands out arg2 (closing an argument that still has
+	// data is an error by design, so merely closing it makes a well-formed
+	// response unreadable)
+	if f := mustFunc(p, r, "", "OutboundCallResponse", "Arg2Reader"); f != nil {
+		isA2 := func(i ssa.Instruction) bool {
+			_, ok := core.IsCall(i, "reqResReader.arg2Reader")
+			return ok
+		}
+		isDrain := func(i ssa.Instruction) bool {
+			_, ok := core.IsCall(i, "ArgReadHelper.Read", "io/ioutil.ReadAll", "io.ReadAll", "io.Copy")
+			return ok
+		}
+		n := 0
+		core.EachInstr(f, func(i ssa.Instruction) {
+			if isA2(i) {
+				n++
+			}
+		})
+		if n == 0 {
+			r.Errorf("OutboundCallResponse.Arg2Reader: no arg2Reader call found")
+		} else {
+			res := core.ReachAvoiding(f, nil, isA2, isDrain, nil)
+			r.Check(!res.Found, "C01-R10", fname(f), "response arg1 is read to its end before arg2 is handed out", p.Pos(f.Pos()),
+				"every path to arg2Reader() passes a read of arg1 to end-of-argument", "arg1 of a response is skipped without being read: a response whose arg1 is not empty can no longer be read: "+p.TrailString(res))
+		}
+	}
+	// the reader steps over the peer's checksum field by this table: a wrong size shifts the chunk boundaries
+	checksumSizes(p, r, "C01-R10")
 	r.Rule("C01-R9", "E6 who-may-call + ordering", 6, "fragments carry the checksum of their own bytes (shared with C02)")
 	r.Alias("C02-R4", "C01-R9")
 	r.Alias("C02-R6", "C01-R9")
